@@ -20,7 +20,7 @@ THEOREMS = ["GmqttVerif.Retained.retained_refines_map", "GmqttVerif.Retained.mat
             "GmqttVerif.Broker.replay_retain_flag_as_is", "GmqttVerif.Broker.will_retained",
             "GmqttVerif.Broker.retained_untouched_by_other_ops",
             "GmqttVerif.Broker.retained_changes_only_by_publish_or_will",
-            "GmqttVerif.Broker.reachable_retained_ok"]
+            "GmqttVerif.Broker.reachable_retained_ok", "GmqttVerif.Broker.online_has_session"]
 EXTRA_MODULES = ['GmqttVerif.Properties.C07Broker']
 COMPS = ["retained", "broker"]
 
